@@ -297,7 +297,7 @@ def run(ctx):
     if ctx.shard[0] == 0:
         returned_object_kinds(ctx)
     for i in range(n):
-        fam = families.pick(ctx.rng, ["dag", "dag-fallback", "gated", "loop", "waitdag", "waitdag", "rewait", "lateclosed", "nested-entry"])
+        fam = families.pick(ctx.rng, ["dag", "dag-fallback", "gated", "loop", "waitdag", "waitdag", "rewait", "lateclosed", "nested-entry", "early-shared"])
         spec, inputs, kw = fam["spec"], fam["inputs"], fam.get("kw", {})
         _one(ctx, fam, spec, inputs, kw, None)
         # one failing node per program (error collected)
